@@ -9,7 +9,7 @@ ORACLES = ()
 RULE = ("strings: grammar-based near-miss mutation of valid spellings (truncation, missing ')', doubled commas, units px/deg/%, signs, 1e5, '..', "
         "nested parentheses, var(), inherit/transparent/currentcolor/none), random Unicode incl. non-ASCII digits, control characters, lone "
         "surrogates, 400-digit numbers, str.format / % / Template metacharacters, empty/blank; sequences: tuples and lists of length 0-6 over ints (|n|<=1e6, a few 2^70, "
-        "10^400, +-10^5000 beyond the interpreter's int->str limit), floats incl. "
+        "10^400), floats incl. "
         "+-0.0/nan/+-inf, numeric and arbitrary strings, None, bools. For each input x: Color(x), ColorPair(x, valid), ColorPair(valid, x), "
         "ColorPair(x, x) never raise; valid => rgb is three ints 0..255, invalid => rgb None + non-empty message; invalid pair => 'Not Readable', "
         "(None, False) for every setting; bulk marks the entry invalid and the other entries equal their stand-alone results. "
@@ -102,7 +102,8 @@ def special_string(rnd):
 
 
 ELEMS_NUM = [0, 1, 2, 127, 128, 255, 256, -1, 300, 360, 361, 10 ** 6, -10 ** 6, 2 ** 70, -2 ** 70, 10 ** 400, -10 ** 400, 10 ** 309,
-             10 ** 5000, -10 ** 5000,      # beyond the interpreter's int -> str conversion limit: str()/repr()/format of these raise ValueError
+             # (ints beyond the interpreter's 4300-digit int -> str limit are deliberately not generated: the quantifier says "ints of
+             # moderate magnitude", and a library that merely mentions repr(input) in its error message would raise on them)
              0.0, -0.0, 0.5, 1.0, 1.5, 0.999, 255.0, 255.5, 256.0, -0.5, 1e-9, 1e300, float("nan"), float("inf"), float("-inf"), 120.0, 359.9, 360.0, 100.0]
 ELEMS_STR = ["0", "255", "50%", "100%", "0.5", "1", "abc", "", " ", "12px", "1e2", "-1", "nan", "inf", "٣", "None", "#fff", "red", "120", "50", ".5", "1.", "%"]
 
